@@ -14,7 +14,7 @@ import (
 
 func init() {
 	register(&Property{
-		ID: "C03",
+		ID:          "C03",
 		Explanation: "Structure of the content pipeline, decided from the typed syntax: (format-tables) every switch whose labels are compression/encryption/signature format constants has an arm for every key of config.Known*Formats (evaluated from the source) and a default that returns an error, level switches cover KnownCompressionLevels, and AddSuffix/RemoveSuffix map each key to the same suffix constant in mirrored order; (two-pass-agreement) the size pass and the write pass of archive/Update call Compress and Encrypt with identical non-destination arguments, the size pass ends in the counter whose value becomes hdr.Size, the write pass in the tar writer, both read the same source with a rewind in between; (nesting-inverse) write side sign->compress->encrypt and read side decrypt->decompress->verify are wired by value identity in inverse order and each stage gets its own format field and the right key half; (finish-order) Flush, compressor.Close, encryptor.Close succeed in that order on every path before the encoded size is read or the next member starts; (logical-size) the logical size is saved under the UncompressedSize record before hdr.Size is overwritten and restored from it by the indexer before conversion.",
 		NotDecided:  "Byte equality through the third-party codecs and crypto, the empty-file-under-gzip read crash (its crash half is C10.no-crash-site), tape-specific codec parameter limits, Restore path arithmetic, write-cache behaviour.",
 		Assumptions: []string{"codec and crypto libraries round-trip what they are given", "config.Known* lists are the supported configuration space"},
@@ -254,7 +254,7 @@ func defOf(f *FuncInfo, v types.Object) (*ast.AssignStmt, *ast.CallExpr, int) {
 
 type pipeFns struct {
 	encrypt, decrypt, compress, decompress, sign, verify *FuncInfo
-	encHeader, signHeader                                 *FuncInfo
+	encHeader, signHeader                                *FuncInfo
 }
 
 func (c *Ctx) pipeFns() *pipeFns {
